@@ -826,6 +826,15 @@ func c15Enabled(r *Run, snap *slog.VerifRegistry, L int, dbg bool, zs []int64) {
 	dbgNow := is.DebugMode()
 	h := slog.NewSlogHandler(l, &slog.HandlerOptions{NoColor: true, JSON: true, NoSource: true})
 	as := treatedAs()
+	// history of the handler: it was asked before, while the process-wide debug mode was the OTHER way round (debug mode
+	// changes without this logger being touched: another logger's SetLevel(Debug), the application's own switch)
+	if L != 5 && len(zs) > 0 && (L+int(zs[0]))%2 == 0 {
+		is.SetDebugMode(!dbgNow)
+		for _, z := range zs {
+			_ = h.Enabled(context.Background(), logslog.Level(z))
+		}
+		is.SetDebugMode(dbgNow)
+	}
 	for _, z := range zs {
 		got := h.Enabled(context.Background(), logslog.Level(z))
 		c := c15Case{Kind: "enabled", L: L, Dbg: dbgNow, Z: z, Obs: got}
